@@ -164,6 +164,30 @@ def run(ctx):
         rngs = ["..4", "3..", "2..5", "3..10", "5..5", "1..2"]
         chains = [f"from t | select {{a, b}} | take {x} | take {y}" for x in rngs for y in rngs] + \
                  [f"from t | sort a | take {x} | take {y} | take {z}" for x in rngs[:4] for y in rngs[:4] for z in rngs[:3]]
+        # ... and judged: the rows of `sort a | take .. | take ..` over 12 distinct rows are the positions the takes select one after the other
+        def py_take(rows, r):
+            lo, hi = r.split("..")
+            lo = int(lo) if lo else 1
+            return rows[lo - 1:] if not hi else rows[lo - 1:int(hi)]
+        sorted_chains = [(f"from t | sort a | take {x} | take {y}", (x, y)) for x in rngs for y in rngs] + \
+                        [(f"from t | sort a | take {x} | take {y} | take {z}", (x, y, z)) for x in rngs[:4] for y in rngs[:4] for z in rngs[:3]]
+        tdb = [(i, 100 - i) for i in range(1, 13)]
+        for (prog, rs), a_ in zip(sorted_chains, vlib.vh_batch([{"op": "compile", "prql": p_, "target": "sql.sqlite"} for p_, _ in sorted_chains])):
+            if "sql" not in a_:
+                continue
+            want = list(tdb)
+            for r_ in rs:
+                want = py_take(want, r_)
+            names_, got_, err_ = relgen.run_sqlite([("t", [("a", relgen.INT), ("b", relgen.INT)])], [tdb], a_["sql"])
+            ctx.case(("take-chain", prog), nontrivial=True)
+            ctx.count("take-chain:" + ("ok" if err_ is None and [tuple(x) for x in got_] == want else "fail"))
+            if err_ is not None or [tuple(x) for x in got_] != want:
+                nbad += 1
+                # listed finding: an open-ended take becomes OFFSET without LIMIT, which SQLite does not parse
+                fid_ = "offset-without-limit" if err_ is not None and "OFFSET" in err_ and " LIMIT " not in a_["sql"] else None
+                ctx.oracle_failure(fid_, f"take chain: `{prog}` returns {got_ if err_ is None else err_}, the takes select {want}",
+                                   {"prql": prog, "target": "sql.sqlite", "sql": a_["sql"], "db": [tdb], "schema": [("t", [("a", "int"), ("b", "int")])],
+                                    "observed_rows": got_, "expected_rows": want}, det_key=(prog, "take-chain"))
         n_sp, n_spbad, _ = selecttrace.run_suite(ctx, chains + sprogs[:900 if quick else 4000] + tprogs[:300 if quick else 2000], "clauses", targets=("sql.sqlite", "sql.postgres", "sql.mssql"))
         ctx.obligation("correspondence: translate_select_pipeline (projection, WHERE / HAVING split at the aggregate, GROUP BY, last ORDER BY, folded LIMIT / OFFSET, DISTINCT / DISTINCT ON) = Model.SelectPipe.parts on every recorded call",
                        n_spbad == 0 and n_sp > 0, f"{n_sp} recorded calls replayed, {n_spbad} differ")
@@ -179,6 +203,8 @@ def run(ctx):
 
 
 def replay(obj):
+    if obj.get("kind") in ("no-failing-input-found", "correspondence") or obj.get("correspondence"):
+        return vlib.replay_correspondence(obj)
     r = obj.get("replay", obj)
     print(json.dumps({k: r.get(k) for k in ("prql", "target", "sql", "status", "detail", "observed_rows", "expected_rows")}, indent=1))
     if "prql" in r:
